@@ -218,7 +218,7 @@ def _r7(ctx):
     """Member-order independence: no order-sensitive operation on the collective's member arrays."""
     from ..orders import Orders
     prog = ctx.prog
-    ctx.rule("R-C11-7", floor=2, what="damage and lifetime multiples are independent of the order of the collective's members")
+    ctx.rule("R-C11-7", floor=1, what="damage and lifetime multiples are independent of the order of the collective's members")
     mods = {"pylife.strength.miner", "pylife.strength.solidity", "pylife.strength.fatigue"}
 
     def row_source(e, fi):
@@ -456,26 +456,51 @@ def _r3(ctx):
             raise AnalysisError("%s: k_2 store not found" % name)
         written[name] = (f, st[0], to_nf(val, atom=_k_atom))
     h = prog.func(MINER + ":MinerHaibach.lifetime_multiple")
-    pows = {}
-    for n in ast.walk(h.node):
-        if isinstance(n, ast.BinOp) and isinstance(n.op, ast.Pow) and isinstance(n.left, ast.Name):
-            pows[n.left.id] = n
+    # exponents read off the symbolic value (names of locals and helper functions do not matter): the denominator is
+    #   dot(n[s >= x_D], s[..] ** e_full)  +  x_D ** e_knee * dot(n[s < x_D], s[..] ** e_red)
+    from ..absint import Interp, TermDomain, term_walk, term_to_nf
+    tv = Interp(prog, TermDomain(), follow=lambda c_: c_.name not in ("_max_amplitude",) and c_.cls is None).run(
+        h, [("p", q) for q in h.params if q != "self"])
+    if not (isinstance(tv, tuple) and len(tv) == 4 and tv[:2] == ("op", "/")):
+        raise AnalysisError("MinerHaibach.lifetime_multiple: returned value is not a quotient")
+    den = tv[3]
     roles = {}
-    for base, n in pows.items():
-        if "full" in base:
-            roles["full"] = n
-        elif "reduced" in base:
-            roles["reduced"] = n
-        else:
-            roles["knee"] = n
+
+    def dot_info(z):
+        if isinstance(z, tuple) and z[:2] == ("call", "np.dot") and len(z[2]) == 2:
+            pw = z[2][1]
+            if isinstance(pw, tuple) and len(pw) == 4 and pw[:2] == ("op", "**") and isinstance(pw[2], tuple) and pw[2][0] == "at":
+                mask = pw[2][2]
+                return mask, pw[3]
+        return None, None
+    knee_base = None
+    for z in term_walk(den):
+        m_, e_ = dot_info(z)
+        if m_ is None or not (isinstance(m_, tuple) and len(m_) == 4 and m_[0] == "cmp"):
+            continue
+        # s >= x_D is written le(x_D, s); s < x_D is lt(s, x_D)
+        if m_[1] == "le":
+            roles["full"], knee_base = e_, m_[2]
+        elif m_[1] == "lt":
+            roles["reduced"] = e_
+    for z in term_walk(den):
+        if isinstance(z, tuple) and len(z) == 4 and z[:2] == ("op", "*"):
+            for fac, other in ((z[2], z[3]), (z[3], z[2])):
+                if isinstance(fac, tuple) and len(fac) == 4 and fac[:2] == ("op", "**") and fac[2] == knee_base and \
+                        dot_info(other)[0] is not None:
+                    roles["knee"] = fac[3]
     if set(roles) != {"full", "reduced", "knee"}:
-        raise AnalysisError("MinerHaibach.lifetime_multiple: power terms not recognised: %s" % sorted(pows))
+        raise AnalysisError("MinerHaibach.lifetime_multiple: weighted sums / knee factor not recognised (found %s)" % sorted(roles))
+
+    def katom(z):
+        if z == ("self", "k_1") or (isinstance(z, tuple) and len(z) == 3 and z[0] == "attr" and z[2] == "k_1"):
+            return "k1"
+        return None
     try:
-        e_full = to_nf(roles["full"].right, atom=_k_atom)
-        e_red = to_nf(roles["reduced"].right, atom=_k_atom)
-        e_knee = to_nf(roles["knee"].right, atom=_k_atom)
+        e_full, e_red, e_knee = (term_to_nf(roles[k_], katom) for k_ in ("full", "reduced", "knee"))
     except NFUnsupported as e:
         raise AnalysisError("lifetime multiple exponents outside the fragment: %s" % e)
+    roles = {k_: h.node for k_ in roles}
     k1 = RF.sym("k1")
     if e_full == k1:
         ctx.holds(h, roles["full"], "full-damage exponent == k_1")
